@@ -12,6 +12,7 @@ STRLEN = (r'\b(line|source|text|window_text)\.len\(\)', r'str_len(\1)', None, 'R
 
 ITEMS = location_types() + [
     dict(src=SN, path='fn col_to_byte_offset_in_line', props=P,
+         bounded=dict(harness='bounded/crop_helpers.rs', items=[('src/de/snippet.rs', 'fn col_to_byte_offset_in_line'), ('src/de/snippet.rs', 'fn line_starts')]),
          loop_rewrites=[(1, 'char_indices')], rewrites=[STRLEN],
          ensures=[('C17:column_to_byte_offset_is_exact', '''match r {
                 Some(i) => 1 <= col_1 <= line@.len() + 1 && i == char_off(line@, col_1 - 1),
@@ -25,6 +26,7 @@ ITEMS = location_types() + [
                         decreases='__v1@.len() - __i1')},
          canaries=['C17:column_to_byte_offset_is_exact']),
     dict(src=SN, path='fn line_starts', props=P,
+         bounded=dict(harness='bounded/crop_helpers.rs', items=[('src/de/snippet.rs', 'fn col_to_byte_offset_in_line'), ('src/de/snippet.rs', 'fn line_starts')]),
          loop_rewrites=[(1, 'enumerate')],
          rewrites=[(r'source\.is_empty\(\)', 'str_len(source) == 0', 1, 'R8')],
          ensures=[('C17:line_starts_are_exactly_the_offsets_after_each_newline', 'line_starts_ok(source.spec_bytes(), source@, r@)')],
